@@ -32,7 +32,7 @@ fn tampered(rng: &mut Rng, uni: &Universe, foreign: &Universe, valid: &[SignedEn
     let a_idx = uni.authors.iter().position(|a| a.id() == base.author()).unwrap();
     let kind;
     let mut acceptable = false;
-    match rng.below(19) {
+    match rng.below(24) {
         0 => {
             let i = rng.below(64);
             raw.author_sig[i] ^= 1 << rng.below(8);
@@ -136,10 +136,51 @@ fn tampered(rng: &mut Rng, uni: &Universe, foreign: &Universe, valid: &[SignedEn
             acceptable = d <= FUTURE;
             kind = if acceptable { "timestamp-at-or-below-future-bound" } else { "timestamp-beyond-future-bound" };
         }
-        _ => {
+        18 => {
             // signed by the right author but a different namespace secret, id left alone
             raw.sign(&foreign.ns, &uni.authors[a_idx]);
             kind = "namespace-signature-by-wrong-key";
+        }
+        19 => {
+            // a holder of the namespace secret forges another author's entry: content altered,
+            // namespace signature valid, and that same signature copied into the author slot
+            raw.hash[0] ^= 0x55;
+            if raw.len == 0 {
+                raw.len = 3;
+            }
+            let m = raw.signed_bytes();
+            raw.namespace_sig = uni.ns.sign(&m).to_bytes();
+            raw.author_sig = raw.namespace_sig;
+            kind = "author-signature-is-a-copy-of-the-valid-namespace-signature";
+        }
+        20 => {
+            // the mirror image: valid author signature copied into the namespace slot
+            raw.ts ^= 2;
+            let m = raw.signed_bytes();
+            raw.author_sig = uni.authors[a_idx].sign(&m).to_bytes();
+            raw.namespace_sig = raw.author_sig;
+            kind = "namespace-signature-is-a-copy-of-the-valid-author-signature";
+        }
+        21 => {
+            // valid namespace signature, author signature by a different (known) author key
+            raw.key_tweak();
+            let m = raw.signed_bytes();
+            raw.namespace_sig = uni.ns.sign(&m).to_bytes();
+            raw.author_sig = uni.authors[(a_idx + 1) % uni.authors.len()].sign(&m).to_bytes();
+            kind = "author-signature-by-another-author";
+        }
+        22 => {
+            // all-zero signatures
+            raw.author_sig = [0; 64];
+            raw.namespace_sig = [0; 64];
+            kind = "zero-signatures";
+        }
+        _ => {
+            // valid author signature, namespace signature missing (zero): a non-member author
+            let m = raw.signed_bytes();
+            raw.author_sig = uni.authors[a_idx].sign(&m).to_bytes();
+            raw.namespace_sig = [0; 64];
+            kind = "valid-author-signature-without-namespace-signature";
         }
     }
     Crafted { raw, kind: kind.to_string(), acceptable }
